@@ -7,7 +7,7 @@
 From Coq Require Import NArith ZArith List Bool.
 From ST Require Import Base.Outcome Base.Units Str.Model Str.CompareSpec Str.CompareModel Str.CompareProofs
      Str.FindSpec Str.FindModel Str.FindProofs.
-From ST Require Str.LeafBridge Gen.Leaf.
+From ST Require Str.LeafBridge Str.LoopBridgeCompare Str.LoopBridgeFind Gen.Leaf.
 Import ListNotations.
 Local Open Scope N_scope.
 
@@ -207,3 +207,26 @@ Theorem case_folding_matches_source : forall c, c < 256 ->
   ST.Str.LeafBridge.uchar (ST.Gen.Leaf.src_cl_fast_lower (ST.Str.LeafBridge.schar c)) = cl_fast_lower c.
 Proof. exact ST.Str.LeafBridge.cl_fast_lower_matches_source. Qed.
 Print Assumptions case_folding_matches_source.
+
+(* ---- tie by translation, loops: the two case-insensitive search loops of st_string_priv.h, find_ci(haystack, size, ch)
+   and find_ci(haystack, size, needle, needle_size) (a for(;;) loop calling the character search and compare_ci), are
+   translated from the CURRENT headers into Gen/Leaf.v; on byte arrays of any length, with enough fuel, they return the
+   index (nullptr: -1) that the model functions find_ch / find_sub of every theorem above return ---- *)
+Theorem ci_find_char_loop_matches_source : forall h size ch fuel,
+  ST.Str.LoopBridgeCompare.bytes h -> ch < 256 -> (size <= length h)%nat -> (size < fuel)%nat ->
+  exists r, find_ch CaseInsensitive h 0 size ch = Ok r /\
+            ST.Gen.Leaf.src_find_ci fuel (ST.Str.LoopBridgeCompare.arr h) (Z.of_nat size) (ST.Base.Units.schar ch)
+              = Some (ST.Str.LoopBridgeCompare.enc_ptr r).
+Proof. exact ST.Str.LoopBridgeFind.find_ci_matches_source. Qed.
+Print Assumptions ci_find_char_loop_matches_source.
+
+Theorem ci_find_loop_matches_source : forall h size needle nsize fuel,
+  ST.Str.LoopBridgeCompare.bytes h -> ST.Str.LoopBridgeCompare.bytes needle ->
+  (1 <= length needle)%nat -> (nsize <= length needle)%nat -> (size <= length h)%nat ->
+  (Z.of_nat (length h) < 9223372036854775808)%Z -> (Z.of_nat nsize < 18446744073709551616)%Z ->
+  (size + size + nsize + 1 < fuel)%nat ->
+  exists r, find_sub CaseInsensitive h 0 size needle nsize = Ok r /\
+            ST.Gen.Leaf.src_find_ci_sub fuel (ST.Str.LoopBridgeCompare.arr h) (Z.of_nat size) (ST.Str.LoopBridgeCompare.arr needle)
+              (Z.of_nat nsize) = Some (ST.Str.LoopBridgeCompare.enc_ptr r).
+Proof. exact ST.Str.LoopBridgeFind.find_ci_sub_matches_source. Qed.
+Print Assumptions ci_find_loop_matches_source.
